@@ -34,7 +34,7 @@ def subtotalKey : String := "acct->fullname()"
 def subtotalAmount : String := "post.amount"
 /-- filters.h container types (their iteration order orders the emitted rows). -/
 def valuesMapType : String := "std::map<string,acct_value_t>"
-def totalsMapType : String := "std::map<account_t*,value_t>"
+def totalsMapType : String := "std::map<account_t*,value_t,account_name_less>"
 def payeeMapType : String := "std::map<string,shared_ptr<subtotal_posts>>"
 /-- filters.h day_of_week_posts::operator(): bucket index. -/
 def dowIndex : String := "post.date().day_of_week()"
